@@ -46,8 +46,14 @@ through `World.boundary(label)`, which counts it and can inject a fault there:
 A fault is an `InjectedFault` (an OSError(EIO): that one call fails before it
 has any effect - the firewall plugin's cleanup excepted, see there - and the
 code under test propagates or handles it as it decides) or, for a finish, also
-a `Crash` (BaseException: the finishing process is killed there).  After a
-failed run() `start()` does what `sproc run` does: flag the container aborted;
+a `Crash` (BaseException: the finishing process is killed there).  A fault
+marked `native` raises what the real boundary raises when it fails
+(`native_error`: a resource service client's wait() raises
+`services.ResourceServiceTimeoutError`; labels without a known native failure
+keep the EIO).  A start goes through the real `LinuxRuntime._run` (which turns
+some exception types into `ContainerSetupError` with an abort reason), and after
+a failed run `start()` does what `sproc run` does: flag the container aborted
+with `err.reason` of a ContainerSetupError, 'unknown' for anything else;
 the process is gone, so its sockets are closed.  What follows a finish (retry
 when it raised, removal of the container directory when it returned) is the
 caller's business: see props/c16.py.
@@ -59,6 +65,7 @@ and only reads `World.snapshot()` / `World.services()`.
 import collections
 import copy
 import errno
+import json
 import os
 import shutil
 import tempfile
@@ -72,9 +79,11 @@ from treadmill import runtime
 from treadmill import services
 from treadmill import utils
 
+from treadmill import exc as tm_exc
 from treadmill.appcfg import abort as app_abort
 from treadmill.runtime.linux import _finish
 from treadmill.runtime.linux import _run
+from treadmill.runtime.linux import runtime as linux_runtime
 
 EXT_IP = '172.31.81.67'
 GATEWAY = '192.168.254.254'
@@ -93,6 +102,25 @@ class InjectedFault(OSError):
         super(InjectedFault, self).__init__(
             errno.EIO, 'injected fault at %s' % label)
         self.label = label
+
+
+def native_error(label):
+    """What the real call behind a boundary label raises when it fails, for
+    the labels where that is known and differs from a plain OSError: the
+    wait() of every resource service client ends in ResourceServiceTimeoutError
+    when the service does not answer in time.  None = no special type."""
+    if label.endswith('.wait'):
+        return services.ResourceServiceTimeoutError(
+            'Resource %s not available in time' % label.split('.')[0])
+    return None
+
+
+class _Service(object):
+    """What LinuxRuntime uses of supervisor.Service."""
+
+    def __init__(self, directory, data_dir):
+        self.directory = directory
+        self.data_dir = data_dir
 
 
 # --------------------------------------------------------------------------
@@ -548,7 +576,9 @@ class Container(object):
         self.manifest = None       # the dict run() worked on (mutated by it)
         self.exited = False
         self.start_error = None    # exception that ended run(), if any
+        self.abort_reason = None   # 'why' written to the aborted flag
         self.fault_label = None    # boundary label where a fault was injected
+        self.fault_native = False  # ... with the real exception type
         self.start_log = []        # boundary labels crossed by the start
 
     @property
@@ -563,6 +593,7 @@ class World(object):
         self.root = tempfile.mkdtemp(prefix='verif-c16-', dir=tmp_base())
         self.fault = None
         self.fault_hit = None
+        self.fault_native = False
         self.crossings = 0
         self.label_counts = collections.Counter()
         self.log = []
@@ -639,6 +670,10 @@ class World(object):
         if hit:
             self.fault = None
             self.fault_hit = label
+            native = native_error(label) if fault.get('native') else None
+            if native is not None and fault['exc'] is InjectedFault:
+                self.fault_native = True
+                raise native
             raise fault['exc'](label)
 
     def _arm(self, fault):
@@ -647,6 +682,7 @@ class World(object):
         self.log = []
         self.fault = fault
         self.fault_hit = None
+        self.fault_native = False
 
     def __enter__(self):
         for mod, attr, key in _PATCHES:
@@ -704,7 +740,9 @@ class World(object):
         """`treadmill sproc run` of container idx through the real run().
 
         fault: None | {'at': k} | {'label': L, 'nth': n} -- the k-th boundary
-        call of this start (or the n-th one labelled L) fails.
+        call of this start (or the n-th one labelled L) fails; with
+        'native': True it fails with the exception type of the real call
+        (see native_error).
         Returns the Container; `start_error` is the exception that ended
         run(), `fault_label` where the fault was injected (it may have been
         handled by the code, in which case start_error stays None)."""
@@ -725,19 +763,35 @@ class World(object):
         if fault is not None:
             armed = dict(fault, exc=InjectedFault)
         self._arm(armed)
+        # LinuxRuntime without its __init__ (which reads the node's runtime
+        # config file and opens the s6 service directory)
+        rtime = linux_runtime.LinuxRuntime.__new__(linux_runtime.LinuxRuntime)
+        rtime._tm_env = self.env  # pylint: disable=protected-access
+        rtime._param = {}  # pylint: disable=protected-access
+        rtime._service = _Service(  # pylint: disable=protected-access
+            cont.container_dir, cont.data_dir)
+        rtime._config = self.runtime_config  # pylint: disable=protected-access
         try:
-            _run.run(tm_env=self.env, runtime_config=self.runtime_config,
-                     container_dir=cont.data_dir, manifest=manifest)
+            rtime._run(manifest)  # pylint: disable=protected-access
         except Exception as err:  # pylint: disable=broad-except
-            # as treadmill.sproc.run: any failure of run() aborts the app
-            cont.start_error = err
-            why = getattr(err, 'reason', app_abort.AbortedReason.UNKNOWN)
-            if not isinstance(why, app_abort.AbortedReason):
+            # as treadmill.sproc.run: a ContainerSetupError aborts the app
+            # with its reason, any other failure with 'unknown'.
+            if isinstance(err, tm_exc.ContainerSetupError):
+                why = err.reason
+            else:
                 why = app_abort.AbortedReason.UNKNOWN
+            # the oracle side wants the exception that ended run() itself
+            cause = err
+            if isinstance(err, tm_exc.ContainerSetupError) and isinstance(
+                    err.__context__, services.ResourceServiceTimeoutError):
+                cause = err.__context__
+            cont.start_error = cause
             app_abort.flag_aborted(cont.data_dir, why=why,
-                                   payload=type(err).__name__)
+                                   payload=type(cause).__name__)
+            cont.abort_reason = _read_why(cont.data_dir)
         finally:
             cont.fault_label = self.fault_hit
+            cont.fault_native = self.fault_native
             self.fault = None
             cont.start_log = list(self.log)
 
@@ -797,6 +851,15 @@ class World(object):
 
     def container_dir_exists(self, idx):
         return os.path.isdir(self.containers[idx].container_dir)
+
+
+def _read_why(data_dir):
+    """The reason in the container's aborted flag, as finish will read it."""
+    try:
+        with open(os.path.join(data_dir, 'aborted')) as flag:
+            return json.load(flag).get('why')
+    except (OSError, ValueError):
+        return None
 
 
 def _readlink(path):
